@@ -44,9 +44,14 @@ def byRankKey (r : Ranks) (setIndex : Nat) : Int :=
   | none => 0
   | some p => if setIndex < p.length then p.getD setIndex 0 else 0
 
-/-- `GetMinersByRank(nodes)` over the pool's nodes (as `SetIndex`es): `sort.Slice` with `idxi > idxj`. -/
-def getMinersByRank (r : Ranks) (n : Nat) : List Nat :=
-  sortStable (fun a b => decide (byRankKey r a > byRankKey r b)) (List.range n)
+/-- `GetMinersByRank(nodes)`: the nodes are given by the `SetIndex` each node OBJECT carries (in pool order);
+`sort.Slice` with `idxi > idxj`. -/
+def getMinersByRankIdx (r : Ranks) (idxs : List Nat) : List Nat :=
+  sortStable (fun a b => decide (byRankKey r a > byRankKey r b)) idxs
+
+/-- the same for a pool whose objects carry their own positions (`SetIndex = position`: fresh objects, or right after an
+`AddNode` to this pool). -/
+def getMinersByRank (r : Ranks) (n : Nat) : List Nat := getMinersByRankIdx r (List.range n)
 
 /-- `chain.IsRoundGenerator`. -/
 def isRoundGenerator (r : Ranks) (setIndex : Nat) (numGenerators : Int) : Bool :=
@@ -54,9 +59,11 @@ def isRoundGenerator (r : Ranks) (setIndex : Nat) (numGenerators : Int) : Bool :
   decide (rank ≠ -1 ∧ rank < numGenerators)
 
 /-- `chain.GetGenerators`. -/
-def getGenerators (r : Ranks) (n : Nat) (genNum : Int) : List Nat :=
-  let miners := getMinersByRank r n
+def getGeneratorsIdx (r : Ranks) (idxs : List Nat) (genNum : Int) : List Nat :=
+  let miners := getMinersByRankIdx r idxs
   if genNum > miners.length then miners else miners.take genNum.toNat
+
+def getGenerators (r : Ranks) (n : Nat) (genNum : Int) : List Nat := getGeneratorsIdx r (List.range n) genNum
 
 /-! ### proposed / notarized blocks -/
 
